@@ -244,8 +244,10 @@ def run_check(prop, tier, verif_seed, replay_file=None, budget_override=None):
     ok_recs = [r for r in records if not r.get("violations") and not r.get("variant")]
     nsel = int(budget.get("selftest", 6))
     if ok_recs and nsel:
-        step = max(1, len(ok_recs) // nsel)
-        sel = ok_recs[::step][:nsel]
+        # prefer scenarios that are cheap to re-run (the re-run is serial, in one process)
+        cheap = [r for r in ok_recs if r.get("wall", 0) <= 6.0] or ok_recs
+        step = max(1, len(cheap) // nsel)
+        sel = cheap[::step][:nsel]
         sout = os.path.join(rundir, "selftest.jsonl")
         env2 = worker_env(hashseed="4242")
         rc, outp = run_wait(
